@@ -15,7 +15,17 @@ def _c09(sub, detail, facts, case):
     return None
 
 
+def _c16(sub, detail, facts, case):
+    # a helper id shared by a non-default branch (prio -2) and an identical plain rule: which of the two objects
+    # survives flatten()'s set() decides the default priority of that id, and the JSON round trip changes the
+    # class of the plain rule (cc.Any without default -> pg.Any), hence which one survives
+    if sub in ("config:default-prios", "config:polyhedron") and facts.get("prio_ambiguous_shared_helper"):
+        return "prio-ambiguous-shared-helper"
+    return None
+
+
 CLASSIFIERS = {
+    "C16": _c16,
     "C09": _c09,
 }
 
